@@ -477,6 +477,8 @@ fn spec_root(e: &ExpressionTree, ev: &dyn Fn(&ExpressionTree) -> Ev) -> (Expect,
                 (Value(v), "subscript-one-based")
             }
             (Ev::Panic(_), _) | (_, Ev::Panic(_)) => (Unspecified, ""),
+            // a NULL array or a NULL subscript: the sentence is silent (the code reports an error): model-vs-code only
+            (Ev::Ok(sqlgrep::model::Value::Null), _) | (_, Ev::Ok(sqlgrep::model::Value::Null)) => (Unspecified, ""),
             (Ev::Ok(sqlgrep::model::Value::Array(_, _)), Ev::Ok(_)) => (Error, "subscript-type-mismatch"),
             (Ev::Ok(_), _) => (Error, "subscript-not-array"),
             _ => (Error, "operand-error"),
